@@ -38,11 +38,8 @@ fn loc(t: Option<Token<'_>>) -> Value {
     }
 }
 
-pub fn run(case: &Value, em: &mut Emitter) {
-    let doc = if case.get("doc").is_some() { normalise_doc(&case["doc"]) } else { normalise_doc(&node_doc(&case["idx"])) };
-    let smi = match sourcemap::decode_slice(&write_doc(&doc)) { Ok(DecodedMap::Index(i)) => i, _ => return };
+fn observe(smi: &sourcemap::SourceMapIndex, qs: &[Value], hist: &str, em: &mut Emitter) {
     let p = proj_map(&DecodedMap::Index(smi.clone()));
-    let qs: Vec<Value> = match case.get("qs") { Some(q) => q.as_array().unwrap().clone(), None => (0..5).flat_map(|l| (0..8).map(move |c| json!([l, c]))).collect() };
     let out = guard(|| {
         let flat = smi.flatten();
         let idxres: Vec<Value> = qs.iter().map(|q| loc(smi.lookup_token(q[0].as_u64().unwrap() as u32, q[1].as_u64().unwrap() as u32))).collect();
@@ -57,7 +54,34 @@ pub fn run(case: &Value, em: &mut Emitter) {
         };
         json!({"k": "ok", "flat": fl, "idx": idxres, "flatres": flatres})
     });
-    em.emit("index", json!({"p": p, "qs": qs}), out);
+    em.emit("index", json!({"p": p, "qs": qs, "hist": hist}), out);
+}
+
+pub fn run(case: &Value, em: &mut Emitter) {
+    let doc = if case.get("doc").is_some() { normalise_doc(&case["doc"]) } else { normalise_doc(&node_doc(&case["idx"])) };
+    let mut smi = match sourcemap::decode_slice(&write_doc(&doc)) { Ok(DecodedMap::Index(i)) => i, _ => return };
+    let qs: Vec<Value> = match case.get("qs") { Some(q) => q.as_array().unwrap().clone(), None => (0..5).flat_map(|l| (0..8).map(move |c| json!([l, c]))).collect() };
+    observe(&smi, &qs, "decoded", em);
+    // the SAME object, changed through get_section_mut after it has been flattened and queried, then observed again:
+    // the statement is about the index as it is now
+    let n = smi.get_section_count();
+    let k = (case.get("mut").and_then(|m| m.as_u64()).unwrap_or(1) as u32) % n.max(1);
+    let how = case.get("mut").and_then(|m| m.as_u64()).unwrap_or(1) / 7 % 3;
+    if n == 0 { return; }
+    let changed = guard(|| {
+        let other = smi.get_section((k + 1) % n).and_then(|s| s.get_sourcemap().cloned());
+        let sec = smi.get_section_mut(k).unwrap();
+        match how {
+            0 => { sec.set_sourcemap(None); json!("unresolve") }
+            1 => { sec.set_sourcemap(other); json!("replace") }
+            _ => match sec.get_sourcemap_mut() {
+                Some(DecodedMap::Regular(sm)) if sm.get_source_count() > 0 => { sm.set_source_contents(0, Some("changed afterwards")); json!("contents") }
+                _ => json!("none"),
+            },
+        }
+    });
+    if changed.get("k").is_some() { em.emit("index", json!({"p": {}, "qs": [], "hist": "mutation panicked"}), changed); return; }
+    if changed != json!("none") { observe(&smi, &qs, changed.as_str().unwrap(), em); }
 }
 
 /// a well-formed index: sections at strictly increasing offsets whose tokens stay before the next offset
@@ -118,5 +142,5 @@ pub fn gen(rng: &mut Rng, size: usize) -> Value {
         let (l, c) = *rng.pick(&offs);
         qs.push(json!([(l + rng.range(-1, 1)).max(0), (c + rng.range(-1, 2)).max(0)]));
     }
-    json!({"op": "index", "doc": doc, "qs": qs})
+    json!({"op": "index", "doc": doc, "qs": qs, "mut": rng.below(1000)})
 }
